@@ -13,6 +13,8 @@ driver family `c17`
 * `c17 short <kind> <hex name> <needsGuard>` — the variable shortening rule; kind `r|s|i`
   (real / string / integer name node), name = node text without blanks; answer hex.
 * `c17 guard <hex prefix> <follower kind>` — lookup in the generated guard table; answer `0/1`.
+* `c17 guardnode <hex name> <next>` — `needs_guard` in full; `<next>` = what the climb from the name
+  node finds: `none`, `sub`, `node1`/`node0` (other named node, adjacent or not) or a token code.
 -/
 namespace A2Verif.Drv.C17
 open A2Verif.Model.Minify A2Verif.Hex A2Verif.Gen.MinifyGuards
@@ -64,6 +66,10 @@ def handle (toks : List String) : String :=
     match A2Verif.Model.MinifyVars.parseKind kind, ofHex name, parseBool guard with
     | some k, some nm, some g => toHex (A2Verif.Model.MinifyVars.shortText k g nm)
     | _, _, _ => "bad-request"
+  | ["guardnode", name, nx] =>
+    match ofHex name, A2Verif.Model.MinifyVars.parseNext nx with
+    | some nm, some n => if A2Verif.Model.MinifyVars.needsGuardNode nm n then "1" else "0"
+    | _, _ => "bad-request"
   | ["guard", pre, foll] =>
     match ofHex pre, A2Verif.Model.MinifyVars.parseFollower foll with
     | some p, some f => if A2Verif.Model.MinifyVars.needsGuard p f then "1" else "0"
